@@ -92,6 +92,8 @@ BeaverAand(n, i, l) ==
   \o << UniG(n, i, "flaand", 8 + 17 * lp) >> \o BcastVer(n, i, "flaand")
   \o Broadcast(n, i, "flaand comm", 8 + 32 * lp)
   \o Broadcast(n, i, "flaand hash", 8 + 16 * lp)
+  \* the bucket assignment is drawn from a coin toss made after the leaky ANDs have been checked (fix, DESIGN 11)
+  \o Broadcast(n, i, "RNG comm", 40) \o << UniG(n, i, "RNG ver", 40) >>
   \o << UniG(n, i, "dvalue", 8 + l * (16 + 17 * (b - 1))) >>
   \o << UniG(n, i, "faand", 8 + 34 * l) >>
 
